@@ -969,7 +969,7 @@ def slice_with_int_dask_array(x, index):
     """
     from dask.array.core import Array
 
-    assert len(index) == x.ndim
+    assert sum(idx is not None for idx in index) == x.ndim
     fancy_indexes = [
         isinstance(idx, (tuple, list))
         or (isinstance(idx, (np.ndarray, Array)) and idx.ndim > 0)
@@ -980,7 +980,13 @@ def slice_with_int_dask_array(x, index):
 
     out_index = []
     dropped_axis_cnt = 0
-    for in_axis, idx in enumerate(index):
+    in_axis = -1
+    for idx in index:
+        if idx is None:
+            # np.newaxis does not consume an axis of x
+            out_index.append(idx)
+            continue
+        in_axis += 1
         out_axis = in_axis - dropped_axis_cnt
         if isinstance(idx, Array) and idx.dtype.kind in "iu":
             if idx.ndim == 0:
@@ -1096,6 +1102,8 @@ def slice_with_bool_dask_array(x, index):
         slice(None) if isinstance(ind, Array) and ind.dtype == bool else ind
         for ind in index
     ]
+    # np.newaxis entries stay in ``out_index``; they do not consume an axis of x
+    index = tuple(ind for ind in index if ind is not None)
 
     if len(index) == 1 and index[0].ndim == x.ndim:
         if not np.isnan(x.shape).any() and not np.isnan(index[0].shape).any():
